@@ -161,12 +161,41 @@ func denoted(buf []byte) (set [1024]bool, valid bool) {
 	return set, true
 }
 
-func (st *state) monitorUnmarshal(site string, wasEmpty bool, buf []byte, got bitmap1024.Bit1024, err error, panicked bool) {
+func (st *state) monitorUnmarshal(site string, wasEmpty bool, prev *[1024]bool, buf []byte, got bitmap1024.Bit1024, err error, panicked bool) {
 	if panicked {
 		st.hit(site, "panic", fmt.Sprintf("Unmarshal panicked on %d bytes %s", len(buf), showBytes(buf)))
 		return
 	}
 	if !wasEmpty {
+		// the receiver is not cleared (C09 theorem `unmarshal_into_any`; the sparse form is a sequence of SetI16 calls, each
+		// of which changes membership of exactly its index — C08): no bytes leave it alone, sparse adds, dense replaces
+		if prev == nil {
+			return
+		}
+		want, valid := denoted(buf)
+		if !valid || err != nil {
+			return
+		}
+		if len(buf) > 0 && len(buf) < 128 {
+			for i := range want {
+				want[i] = want[i] || prev[i]
+			}
+		} else if len(buf) == 0 {
+			want = *prev
+		}
+		if setOf(got) != want {
+			var lost, extra []int
+			g := setOf(got)
+			for i := range want {
+				if want[i] && !g[i] {
+					lost = append(lost, i)
+				}
+				if !want[i] && g[i] {
+					extra = append(extra, i)
+				}
+			}
+			st.hit(site, "into-nonempty", fmt.Sprintf("Unmarshal of %s into a bitmap with %d members: members lost %v, spurious %v", showBytes(buf), len(members(prev)), lost, extra))
+		}
 		return
 	}
 	want, valid := denoted(buf)
@@ -362,8 +391,9 @@ func (st *state) run(line string) string {
 			return "bad-op"
 		}
 		wasEmpty := len(members(ref)) == 0
+		prev := *ref
 		err, p := safeUnmarshal(*b, buf)
-		st.monitorUnmarshal("Bit1024.Unmarshal", wasEmpty, buf, *b, err, p)
+		st.monitorUnmarshal("Bit1024.Unmarshal", wasEmpty, &prev, buf, *b, err, p)
 		*ref = setOf(*b)
 		if p {
 			return "panic"
@@ -448,7 +478,7 @@ func (st *state) run(line string) string {
 				st.hit(site, "start-range", fmt.Sprintf("start %d accepted although start*1024 exceeds uint32", s))
 			}
 		} else {
-			st.monitorUnmarshal(site, true, buf, bits, err, false)
+			st.monitorUnmarshal(site, true, nil, buf, bits, err, false)
 		}
 		if err != nil {
 			return errClass(err)
@@ -679,6 +709,17 @@ func (st *state) run(line string) string {
 			}
 		}
 		return c08x.ShowIter(s, c, okc)
+	case f[0] == "stress" && len(f) == 4:
+		// monitor-only operation (the oracle answers `ok` without evaluating the model, whose list writes are quadratic):
+		// many FULL blocks and a count far beyond what the scripts otherwise use; the list forms and the single-block
+		// forms are compared with the set-level expectation computed here
+		nb, ok1 := c08x.ParseInt(f[2], 1, 100)
+		n, ok2 := c08x.ParseInt(f[3], -200000, 200000)
+		if (f[1] != "big" && f[1] != "tip") || !ok1 || !ok2 || strings.HasPrefix(f[2], "-") {
+			return "bad-op"
+		}
+		st.stress(f[1], int(nb), int(n))
+		return "ok"
 	case (f[0] == "bigs.getn" || f[0] == "tips.getn") && len(f) == 3:
 		rev, ok1 := c08x.ParseDir(f[1])
 		n, ok2 := c08x.ParseInt(f[2], -1<<62, maxSlice)
@@ -752,6 +793,117 @@ func (st *state) run(line string) string {
 		return c08x.ShowGetN(s, okc)
 	}
 	return "bad-op"
+}
+
+// stress: nb full blocks with consecutive starts; GetN / RGetN of the list and of the first block with count n.
+func (st *state) stress(kind string, nb, n int) {
+	ff := make([]byte, 128)
+	for i := range ff {
+		ff[i] = 0xff
+	}
+	base := uint32(4194303 - nb) // the last tip block is the topmost one; for BigU32 an arbitrary region
+	expect := func(listRev, rev bool) []int64 {
+		var out []int64
+		for k := 0; k < nb; k++ {
+			kk := k
+			if listRev {
+				kk = nb - 1 - k
+			}
+			start := int64(base) + int64(kk)
+			for m := 0; m < 1024; m++ {
+				mm := m
+				if rev {
+					mm = 1023 - m
+				}
+				out = append(out, start*1024+int64(mm))
+			}
+		}
+		if n < len(out) {
+			if n < 0 {
+				return nil
+			}
+			out = out[:n]
+		}
+		return out
+	}
+	if kind == "big" {
+		var bs bitmap1024.BigU32s
+		for k := 0; k < nb; k++ {
+			b, err := bitmap1024.NewBigU32FromData(base+uint32(k), ff)
+			if err != nil {
+				st.hit("NewBigU32FromData", "rejects-valid", "128 x ff rejected: "+err.Error())
+				return
+			}
+			bs = append(bs, b)
+		}
+		for _, rev := range []bool{false, true} {
+			fn := bs.GetNAsI64
+			if rev {
+				fn = bs.RGetNAsI64
+			}
+			got, ok := c08x.GetNCall(n, fn)
+			if n < 0 {
+				continue
+			}
+			want := expect(false, rev) // BigU32s: index order in both directions
+			if !ok || !eqI64(got, want) {
+				st.hit("BigU32s.getNAsI64", "concat", fmt.Sprintf("%d full blocks, rev=%v, n=%d: %d values returned (panic=%v), expected %d; first difference at %d", nb, rev, n, len(got), !ok, len(want), firstDiff(got, want)))
+			}
+			one, ok1 := c08x.GetNCall(n, map[bool]func(int) []int64{false: bs[0].GetNAsI64, true: bs[0].RGetNAsI64}[rev])
+			w1 := want
+			if len(w1) > 1024 {
+				w1 = w1[:1024]
+			}
+			if rev && nb > 0 {
+				w1 = nil
+				for m := 1023; m >= 0 && len(w1) < n; m-- {
+					w1 = append(w1, int64(base)*1024+int64(m))
+				}
+			}
+			if !ok1 || !eqI64(one, w1) {
+				st.hit("BigU32.IterAsI64", "offset", fmt.Sprintf("full block, rev=%v, n=%d: %d values returned, expected %d", rev, n, len(one), len(w1)))
+			}
+		}
+		return
+	}
+	var ts bitmap1024.U32BitTips
+	for k := 0; k < nb; k++ {
+		b, err := bitmap1024.NewU32BitTipFromData(base+uint32(k), ff)
+		if err != nil {
+			st.hit("NewU32BitTipFromData", "rejects-valid", "128 x ff rejected: "+err.Error())
+			return
+		}
+		ts = append(ts, b)
+	}
+	for _, rev := range []bool{false, true} {
+		fn := ts.GetNAsU32
+		if rev {
+			fn = ts.RGetNAsU32
+		}
+		got, ok := c08x.GetNCall(n, fn)
+		if n < 0 {
+			continue
+		}
+		want := expect(rev, rev) // U32BitTips: reverse visits the blocks in reverse order
+		if !ok || !eqI64(toI64(got), want) {
+			st.hit("U32BitTips.GetNAsU32", "concat", fmt.Sprintf("%d full blocks, rev=%v, n=%d: %d values returned (panic=%v), expected %d; first difference at %d", nb, rev, n, len(got), !ok, len(want), firstDiff(toI64(got), want)))
+		}
+	}
+}
+
+func firstDiff(a, b []int64) int {
+	for i := 0; i < len(a) && i < len(b); i++ {
+		if a[i] != b[i] {
+			return i
+		}
+	}
+	if len(a) != len(b) {
+		if len(a) < len(b) {
+			return len(a)
+		}
+		return len(b)
+	}
+	return -1
 }
 
 func runCase(c corr.Case) (res corr.Result) {
@@ -1146,6 +1298,86 @@ func genFullBlocks(r *rng.R) corr.Case {
 	return corr.Case{Tag: "full-blocks", Lines: lines}
 }
 
+// genManyBlocks: lists of 10…60 small blocks (1…4 members each), list forms with n around the total and far beyond.
+func genManyBlocks(r *rng.R) corr.Case {
+	lines := append([]string{"new"}, pickMagicLine(r)...)
+	kind := r.Pick("big", "tip")
+	nb := r.Range(10, 60)
+	total := 0
+	for idx := 0; idx < nb; idx++ {
+		if kind == "big" {
+			v := pickI64(r)
+			if v < 0 || v > maxInRange {
+				v = int64(r.U64() % uint64(maxInRange+1))
+			}
+			lines = append(lines, fmt.Sprintf("big.fromi64 %d", v))
+			total++
+			for j := r.Intn(4); j > 0; j-- {
+				lines = append(lines, fmt.Sprintf("big.set %d %d", idx, (v/1024)*1024+int64(r.Intn(1024))))
+				total++
+			}
+		} else {
+			u := pickU32(r)
+			lines = append(lines, fmt.Sprintf("tip.fromu32 %d", u))
+			total++
+			for j := r.Intn(4); j > 0; j-- {
+				lines = append(lines, fmt.Sprintf("tip.set %d %d", idx, (u/1024)*1024+int64(r.Intn(1024))))
+				total++
+			}
+		}
+	}
+	for j := r.Range(2, 4); j > 0; j-- {
+		n := r.PickInt(-1, 0, 1, nb-1, nb, nb+1, total-1, total, total+1, 3001, 65537, 100000, r.Intn(total+2))
+		lines = append(lines, fmt.Sprintf("%ss.getn %s %d", kind, r.Pick("f", "r"), n))
+	}
+	lines = append(lines, fmt.Sprintf("%s.getn %d %s %d", kind, r.Intn(nb), r.Pick("f", "r"), r.PickInt(3001, 4097, 65537, 100000)))
+	return corr.Case{Tag: "many-blocks", Lines: lines}
+}
+
+// genBlockWalk: one block filled in random order up to a random height through set / sparse unmarshal.
+func genBlockWalk(r *rng.R) corr.Case {
+	perm := make([]int, 1024)
+	for i := range perm {
+		perm[i] = i
+	}
+	for i := len(perm) - 1; i > 0; i-- {
+		j := r.Intn(i + 1)
+		perm[i], perm[j] = perm[j], perm[i]
+	}
+	height := r.PickInt(1024, 1000, 1001, 900, 901, r.Range(2, 1024))
+	kind := r.Pick("big", "tip", "unm")
+	var lines []string
+	switch kind {
+	case "big":
+		base := int64(r.PickI64(0, 7, 4194303, 8388608, int64(r.U64()%4294967295))) * 1024
+		lines = []string{"new", fmt.Sprintf("big.fromi64 %d", base+int64(perm[0]))}
+		for k := 1; k < height; k++ {
+			lines = append(lines, fmt.Sprintf("big.set 0 %d", base+int64(perm[k])))
+		}
+		lines = append(lines, "big.show 0", fmt.Sprintf("big.getn 0 %s %d", r.Pick("f", "r"), r.PickInt(height, height+1, 1024, 2000)))
+	case "tip":
+		base := int64(r.PickI64(0, 7, 4194303, int64(r.U64()&0x3fffff))) * 1024
+		lines = []string{"new", fmt.Sprintf("tip.fromu32 %d", base+int64(perm[0]))}
+		for k := 1; k < height; k++ {
+			lines = append(lines, fmt.Sprintf("tip.set 0 %d", base+int64(perm[k])))
+		}
+		lines = append(lines, "tip.show 0", fmt.Sprintf("tip.getn 0 %s %d", r.Pick("f", "r"), r.PickInt(height, height+1, 1024, 2000)))
+	default:
+		lines = []string{"new"}
+		for k := 0; k < height; {
+			// 1…8 elements per call, into the bitmap built so far
+			var sb strings.Builder
+			for c := r.Range(1, 8); c > 0 && k < height; c-- {
+				sb.WriteString(le16(perm[k]))
+				k++
+			}
+			lines = append(lines, "unmarshal a "+sb.String())
+		}
+		lines = append(lines, "dump a", "roundtrip a", "marshal a")
+	}
+	return corr.Case{Tag: "block-walk:" + kind, Lines: lines}
+}
+
 func genMalformed(r *rng.R) corr.Case {
 	bad := []string{"", "nope", "marshal", "marshal c", "unmarshal a", "unmarshal a 0", "unmarshal a zz", "unmarshal c 00", "unmarshal a 0G", "roundtrip", "roundtrip c",
 		"big.fromi64", "big.fromi64 x", "big.fromi64 9223372036854775808", "big.set 0 1", "big.set x 1", "big.getn 0 f 1", "big.getn 9 f 1", "big.iter 0 f 3 0", "big.show 5", "big.rev 1",
@@ -1260,6 +1492,45 @@ func fixedCases() []corr.Case {
 			cs = append(cs, corr.Case{Tag: "fixed:full-blocks", Lines: lines})
 		}
 	}
+	// many full blocks and counts far beyond the usual ones (monitor-only op), single blocks with large n
+	cs = append(cs, corr.Case{Tag: "fixed:stress", Lines: []string{"new", "stress tip 70 100000", "stress big 70 100000", "stress tip 3 65537", "stress big 64 65536",
+		"stress tip 100 200000", "stress big 2 -1", "big.fromi64 5", "big.getn 0 f 100000", "big.getn 0 r 65537", "tip.fromu32 5", "tip.getn 0 f 100000", "tip.getn 0 r 4097",
+		"bigs.getn f 100000", "tips.getn r 70000"}})
+	// a block grows one member at a time until it is full (Len through every value 1…1024), through SetI64 / SetU32 / sparse
+	// Unmarshal into the non-empty bitmap; membership is checked after every step. Orders: word 0 last, word 0 first, scattered
+	for _, order := range []string{"desc", "asc", "perm"} {
+		offs := make([]int, 1024)
+		for i := range offs {
+			switch order {
+			case "desc":
+				offs[i] = 1023 - i
+			case "asc":
+				offs[i] = i
+			default:
+				offs[i] = (i*397 + 11) % 1024
+			}
+		}
+		big := []string{"new", fmt.Sprintf("big.fromi64 %d", 7*1024+offs[0])}
+		tip := []string{"new", fmt.Sprintf("tip.fromu32 %d", 4194303*1024+offs[0])}
+		unm := []string{"new"}
+		for k, o := range offs {
+			if k > 0 {
+				big = append(big, fmt.Sprintf("big.set 0 %d", 7*1024+o))
+				tip = append(tip, fmt.Sprintf("tip.set 0 %d", 4194303*1024+o))
+			}
+			unm = append(unm, "unmarshal a "+le16(o))
+			if (k+1)%64 == 0 || k == 898 || k == 899 || k == 999 || k == 1000 {
+				big = append(big, "big.show 0")
+				tip = append(tip, "tip.show 0")
+				unm = append(unm, "dump a")
+			}
+		}
+		big = append(big, "big.show 0", "big.getn 0 f 1025", "big.getn 0 r 1024")
+		tip = append(tip, "tip.show 0", "tip.getn 0 f 1025", "tip.getn 0 r 1024")
+		unm = append(unm, "dump a", "roundtrip a")
+		cs = append(cs, corr.Case{Tag: "fixed:block-walk-" + order, Lines: big}, corr.Case{Tag: "fixed:block-walk-" + order, Lines: tip},
+			corr.Case{Tag: "fixed:unmarshal-walk-" + order, Lines: unm})
+	}
 	cs = append(cs, corr.Case{Tag: "fixed:empty-lists", Lines: []string{"new", "bigs.getn f -1", "bigs.getn r 5", "tips.getn f -1", "tips.getn r 0", "bigs.rev", "tips.rev"}})
 	return cs
 }
@@ -1296,6 +1567,12 @@ func spec() corr.Spec {
 			// `full-blocks` scripts cover every n class on every run
 			if r.Chance(1, 60) {
 				return genFullBlocks(r)
+			}
+			if r.Chance(1, 60) {
+				return genBlockWalk(r)
+			}
+			if r.Chance(1, 40) {
+				return genManyBlocks(r)
 			}
 			switch x := r.Intn(20); {
 			case x < 5:
@@ -1338,7 +1615,7 @@ func spec() corr.Spec {
 			}
 			return "C09:corr:" + f[0]
 		},
-		Rule: "scripts over two bitmap registers and two block lists: Marshal/round trip of bitmaps with 0,1,2,62..66,127,128,1023,1024 and random member counts under dense-only / sparse-only / default traversal; Unmarshal of byte strings of every length 0..130 and structured classes (valid sparse, one bad element incl. 1024 and negative, odd length, too long, dense, 126 bytes, random) into empty and non-empty bitmaps; BigU32 from int64 at 0, 2^32, 2^33+5, (2^32-1)*1024 +-1, negatives, random in and out of range, then SetI64 of same-block / neighbouring / far integers; U32BitTip over all-range uint32; single-block and list iteration in both directions with n in {-1,0,1,..,1025}; FromData constructors; FULL blocks (128 x ff, complement of an empty / sparse block) with n in {1021..1026, 2000, 3000} and list forms at multiples of 1024 +-1; malformed lines. Non-trivial: a non-empty marshal, an unmarshal of at least one byte, or a block operation that succeeded; distinct = distinct script text",
+		Rule: "scripts over two bitmap registers and two block lists: Marshal/round trip of bitmaps with 0,1,2,62..66,127,128,1023,1024 and random member counts under dense-only / sparse-only / default traversal; Unmarshal of byte strings of every length 0..130 and structured classes (valid sparse, one bad element incl. 1024 and negative, odd length, too long, dense, 126 bytes, random) into empty and non-empty bitmaps; BigU32 from int64 at 0, 2^32, 2^33+5, (2^32-1)*1024 +-1, negatives, random in and out of range, then SetI64 of same-block / neighbouring / far integers; U32BitTip over all-range uint32; single-block and list iteration in both directions with n in {-1,0,1,..,1025}; FromData constructors; FULL blocks (128 x ff, complement of an empty / sparse block) with n in {1021..1026, 2000, 3000} and list forms at multiples of 1024 +-1; a block / bitmap grown one member at a time to every size 1…1024 through SetI64 / SetU32 / sparse Unmarshal into the non-empty target (three fixed orders + random); lists of 10…60 blocks; counts up to 100000; monitor-only `stress` (70–100 full blocks, n up to 200000); malformed lines. Non-trivial: a non-empty marshal, an unmarshal of at least one byte, or a block operation that succeeded; distinct = distinct script text",
 		Assumptions: []string{
 			"as C08: slices shorter than 2^63, bitmaps of 16 words",
 			"U32BitTip values are built through the package's constructors (Start <= MaxU32TipStart); BigU32 Start is any uint32 (NewBigU32FromData)",
